@@ -6,6 +6,7 @@ session usable (the rest of the session is then completed and must succeed)."""
 import json
 import os
 import subprocess
+import time
 
 import enc
 import vlib
@@ -163,11 +164,12 @@ _exe = None
 _tu = None
 
 
-def execute(ops):
+def execute(ops, watchdog=20):
     en = dict(os.environ)
-    en.update({"SVT_LOG": "-2", "ASAN_OPTIONS": "detect_leaks=0:halt_on_error=1:exitcode=77", "UBSAN_OPTIONS": "halt_on_error=0", "API_TU": _tu})
+    en.update({"SVT_LOG": "-2", "ASAN_OPTIONS": "detect_leaks=0:halt_on_error=1:exitcode=77", "UBSAN_OPTIONS": "halt_on_error=0", "API_TU": _tu,
+               "API_WATCHDOG_S": str(watchdog)})
     try:
-        p = subprocess.run([_exe] + ops, stdout=subprocess.PIPE, stderr=subprocess.PIPE, env=en, timeout=120)
+        p = subprocess.run([_exe] + ops, stdout=subprocess.PIPE, stderr=subprocess.PIPE, env=en, timeout=6 * watchdog)
     except subprocess.TimeoutExpired:
         return {"timeout": True, "lines": [], "stderr": ""}
     lines = [l.split() for l in p.stdout.decode("latin1").strip().split("\n") if l.strip()]
@@ -179,8 +181,16 @@ def job(item):
     return execute(hist + [op] + comp)
 
 
+def blocked(r):
+    return bool(r.get("timeout") or any(l and l[0] == "WATCHDOG" for l in r["lines"]))
+
+
 def analyse(ck, hist, op, kind, comp, r, stats):
     """returns True if the transition behaved"""
+    if blocked(r):
+        # a wall-clock watchdog fired while 16 sessions ran side by side: re-run this history alone with a long limit before calling it blocked
+        r = execute(hist + [op] + comp, watchdog=150)
+        stats["watchdog_reruns"] = stats.get("watchdog_reruns", 0) + 1
     where = "after [%s]" % " ".join(hist)
     rep = {"history": hist, "op": op, "completion": comp}
     res = {}
@@ -261,23 +271,96 @@ def bfs(ck, init, max_depth, stats):
     return len(seen), transitions, depth, samples, complete and not frontier
 
 
+PROBE_VALUES = (-2, -1, 3, 9, 64, 1000, 2147483647)
+PROBE_SKIP = ("rc_twopass_stats_in", "rc_firstpass_stats_out", "pred_struct", "channel_id", "active_channel_count")
+
+
+def probe_job(item):
+    elem, v = item
+    return execute(["IH", "SPX:%s=%d" % (elem, v), "SP", "DEINIT", "DH"])
+
+
+def full_job(item):
+    elem, v = item
+    return execute(["IH", "SPX:%s=%d" % (elem, v), "SP", "IN", "SEND", "EOS", "DRAIN", "DEINIT", "DH"])
+
+
+def reject_sweep(ck, tier, stats):
+    """every configuration element x a fixed value menu: whenever svt_av1_enc_set_parameter rejects the configuration, the same handle must
+    accept a valid configuration afterwards (cheap probe for every rejected (element, value)) and run a whole session (one value per element)"""
+    elems = [e for e in element_names() if not e.startswith(PROBE_SKIP)]
+    items = [(e, v) for e in elems for v in PROBE_VALUES]
+    res, done = vlib.pmap_deadline(probe_job, items, time.time() + 0.25 * ck.budget)
+    rejected, per_elem = 0, {}
+    for (e, v), r in res:
+        hist, op, comp = ["IH"], "SPX:%s=%d" % (e, v), ["SP", "DEINIT", "DH"]
+        if blocked(r):
+            r = execute(hist + [op] + comp, watchdog=150)
+            stats["watchdog_reruns"] = stats.get("watchdog_reruns", 0) + 1
+        seq = [(l[0], int(l[1])) for l in r["lines"] if l and l[0] not in ("PACKET", "END", "WATCHDOG", "SIGNAL") and len(l) > 1]
+        rc = seq[1][1] if len(seq) > 1 else None
+        is_rej = rc is not None and rc != ERR_NONE
+        if is_rej:
+            rejected += 1
+            per_elem.setdefault(e, v)
+        if not is_rej and not (blocked(r) or r.get("rc") != 0):
+            continue
+        judge_after_reject(ck, e, hist, op, comp, r, seq, rc)
+    full = sorted(per_elem.items())
+    res2, done2 = vlib.pmap_deadline(full_job, full, time.time() + 0.15 * ck.budget)
+    for (e, v), r in res2:
+        hist, op, comp = ["IH"], "SPX:%s=%d" % (e, v), ["SP", "IN", "SEND", "EOS", "DRAIN", "DEINIT", "DH"]
+        if blocked(r):
+            r = execute(hist + [op] + comp, watchdog=150)
+            stats["watchdog_reruns"] = stats.get("watchdog_reruns", 0) + 1
+        seq = [(l[0], int(l[1])) for l in r["lines"] if l and l[0] not in ("PACKET", "END", "WATCHDOG", "SIGNAL") and len(l) > 1]
+        judge_after_reject(ck, e, hist, op, comp, r, seq, seq[1][1] if len(seq) > 1 else None)
+    return {"probed": len(res), "enumerated": len(items), "rejected": rejected, "elements": len(elems), "elements_with_rejection": len(per_elem),
+            "full_sessions_after_rejection": len(res2), "complete": bool(done and done2)}
+
+
+def judge_after_reject(ck, e, hist, op, comp, r, seq, rc):
+    rep = {"history": hist, "op": op, "completion": comp}
+    field = e.split(".")[0]
+    if blocked(r) or r.get("rc") != 0:
+        bad = [l for l in r["lines"] if l and l[0] in ("WATCHDOG", "SIGNAL")]
+        failing = bad[0][-1] if bad else (seq[-1][0] if seq else "?")
+        what = "blocks" if blocked(r) else ("crashes (signal %s)" % bad[0][1] if bad else "sanitizer report %s" % (enc.sanitizer_site(r.get("stderr", "")),))
+        if failing.startswith("SPX:"):
+            ck.violation("C14:%s:SPX:%s" % ("blocks" if blocked(r) else "crash", field), "%s %s" % (op, what), rep)
+        else:
+            ck.violation("C14:session-unusable-after-rejection:%s" % field, "after %s (returned %s) %s %s" % (op, "%#x" % (rc & 0xffffffff) if rc is not None else "?", failing, what), rep)
+        return
+    for name, c in seq[2:]:
+        if c != ERR_NONE:
+            ck.violation("C14:session-unusable-after-rejection:%s" % field, "after %s (returned %#x), %s returns %#x" % (op, rc & 0xffffffff, name, c & 0xffffffff), rep)
+            return
+
+
+def element_names():
+    out = subprocess.run([_exe, "LAYOUT"], stdout=subprocess.PIPE, env=dict(os.environ, SVT_LOG="-2")).stdout.decode()
+    return [l.strip() for l in out.split("\n") if l.strip() and not l.startswith(("END", "LAYOUT"))]
+
+
 def run(tier):
     global _exe, _tu
     ck = vlib.Check(PID, tier, "model_checking")
-    _exe = vlib.cc_harness("asan", "api_h", ["api_h.c"], enc=True, dec=True)
+    _exe = vlib.cc_harness("asan", "api_h", ["api_h.c"], enc=True, dec=True, deps=["param_fields.h"])
     wd = vlib.workdir("c14")
     pre = os.path.join(wd, "tu")
     enc.session({"w": 64, "h": 64, "n": 1}, out=pre)
     _tu = pre + ".obu"
     stats = {}
     depth = 12 if tier == "quick" else 16
-    s1, t1, d1, sm1, c1 = bfs(ck, EncState(), depth, stats)
+    rs = reject_sweep(ck, tier, stats)
     s2, t2, d2, sm2, c2 = bfs(ck, DecState(), depth, stats)
+    s1, t1, d1, sm1, c1 = bfs(ck, EncState(), depth, stats)
     cov = {"states": s1 + s2, "transitions": t1 + t2, "traces_validated_against_impl": t1 + t2, "samples": (sm1 + sm2) or ["IH SP IN"],
-           "exhaustive": bool(c1 and c2), "encoder_states": s1, "decoder_states": s2, "max_depth": max(d1, d2), "well_behaved_transitions": stats.get("ok", 0),
+           "exhaustive": bool(c1 and c2 and rs["complete"]), "reject_sweep": rs, "watchdog_reruns": stats.get("watchdog_reruns", 0), "encoder_states": s1, "decoder_states": s2, "max_depth": max(d1, d2), "well_behaved_transitions": stats.get("ok", 0),
            "explanation": "BFS over API call histories; canonical state = (handle phase, pictures sent <= 2, EOS sent, packets retrieved, header fetched) for the "
                           "encoder and (handle phase, temporal units fed <= 2) for the decoder; every transition replays its history in a fresh ASan process and "
-                          "then completes the session normally"}
+                          "then completes the session normally; reject sweep: every configuration element x %s, each rejected configuration followed by a valid "
+                          "set_parameter on the same handle (and, one value per element, a whole session)" % (PROBE_VALUES,)}
     return ck.finish(cov, ["out-of-order calls with valid pointers are not demanded by the property and not explored",
                            "blocking svt_av1_enc_get_packet is only issued when a packet is owed", "encoder and decoder sessions explored separately (C17 covers concurrency)"])
 
@@ -285,11 +368,12 @@ def run(tier):
 def replay(path):
     global _exe, _tu
     d = json.load(open(path))["replay"]
-    _exe = vlib.cc_harness("asan", "api_h", ["api_h.c"], enc=True, dec=True)
+    _exe = vlib.cc_harness("asan", "api_h", ["api_h.c"], enc=True, dec=True, deps=["param_fields.h"])
     wd = vlib.workdir("c14r")
     pre = os.path.join(wd, "tu")
     enc.session({"w": 64, "h": 64, "n": 1}, out=pre)
     _tu = pre + ".obu"
-    r = execute(d["history"] + [d["op"]] + d["completion"])
+    r = execute(d["history"] + [d["op"]] + d["completion"], watchdog=150)
     print(r)
-    return 1
+    lines = r["lines"]
+    return 1 if (blocked(r) or r.get("rc") != 0 or any(len(l) > 1 and l[0] not in ("PACKET", "GP_NB", "GR") and not l[0].endswith(("_NULL", "_NULLH", "_NULLC", "_NULLP", "_NULLO", "_NULLB", "_NULLD", "_BADID", "_NULLINFO")) and not l[0].startswith(("SP_BAD", "SPX:")) and l[1] != "0" for l in lines)) else 0
